@@ -259,7 +259,7 @@ def decode_structs(toks):
             lhs, rhs = cond[:eq], cond[eq + 1:]
             from harness.decoders import lit_of
             lt = T.text(lhs)
-            m1 = re.match(r'^std :: mem :: offset_of ! \((\w+) , (\w+)\)$', lt)
+            m1 = re.match(r'^std :: mem :: offset_of ! \((\w+) , (\w+|\{sym:[^}]+\})\)$', lt)
             m2 = re.match(r'^std :: mem :: size_of :: < (\w+) > \(\)$', lt)
             if len(rhs) != 1 or rhs[0].k != 'lit' or not (m1 or m2):
                 raise T.DecodeError('assertion shape: ' + T.text(cond))
